@@ -91,6 +91,22 @@ void AsmContext::init()
   list_output = list_output_msp430;
   cpu_list_index = -1;
 
+  // Everything a CPU directive or .bss changed in the previous pass goes
+  // back to the state the first pass started with, so the statements
+  // before the first CPU directive are read the same way in both passes.
+  parse_directive        = nullptr;
+  link_function          = nullptr;
+  cpu_type               = 0;
+  is_dollar_hex          = false;
+  strings_have_dots      = false;
+  strings_have_slashes   = false;
+  can_tick_end_string    = false;
+  numbers_dont_have_dots = false;
+  ignore_number_postfix  = false;
+  pass_1_write_disable   = false;
+  flags                  = 0;
+  segment                = 0;
+
   address           = 0;
   instruction_count = 0;
   code_count        = 0;
